@@ -533,6 +533,9 @@ def _stack(
 
             if all(
                 isinstance(_tensordict, LazyStackedTensorDict)
+                # the member-wise stack below pairs the i-th members: this is the
+                # stack of the operands only if they are stacked along the same dim
+                and _tensordict.stack_dim == list_of_tensordicts[0].stack_dim
                 for _tensordict in list_of_tensordicts
             ):
                 # Let's try to see if all tensors have the same shape
